@@ -9,10 +9,22 @@ mkdir -p bin
 out="bin/check.$$"
 tags=verif
 case "$id" in C05|C10) tags="verif hb" ;; esac   # the hb variant links libharfbuzz through cgo
-if ! go build -tags "$tags" -o "$out" ./cmd/check 2>bin/build.$$.log; then
-  cat bin/build.$$.log; rm -f bin/build.$$.log "$out"
+overlay=""
+if [ "$id" = "C17" ]; then
+  # C17 needs the addresses of every package-level variable of the repository: a generated file per package,
+  # added to the build through an overlay (nothing is written under /repo), and a second -race build for the free-running pass
+  ov="/var/tmp/verif-c17-ov.$$"
+  tags="verif c17"
+  if ! go run ./tools/c17gen /repo "$ov" >bin/build.$$.log 2>&1; then cat bin/build.$$.log; rm -rf "$ov" bin/build.$$.log; echo "BUILD FAILED for $id (generator)"; exit 2; fi
+  overlay="-overlay $ov/overlay.json"
+  if go build -race -tags "$tags" $overlay -o "bin/check-race.$$" ./cmd/check 2>>bin/build.$$.log; then
+    export VERIF_C17_RACE_BIN="/verif/bin/check-race.$$ c17race"
+  fi
+fi
+if ! go build -tags "$tags" $overlay -o "$out" ./cmd/check 2>bin/build.$$.log; then
+  cat bin/build.$$.log; rm -f bin/build.$$.log "$out" "bin/check-race.$$"; [ -n "$ov" ] && rm -rf "$ov"
   echo "BUILD FAILED for $id (the tree under /repo does not compile with the harness)"; exit 2
 fi
 rm -f bin/build.$$.log
-trap 'rm -f "$out"' EXIT
+trap 'rm -f "$out" "bin/check-race.$$"; [ -n "$ov" ] && rm -rf "$ov"' EXIT
 "$out" "$id" --tier "$tier" "$@"
